@@ -821,7 +821,7 @@ class Overlay(Widget, WidgetContainerMixin, WidgetContainerListContentsMixin, ty
                 bottom = maxrow - top - height
         elif self.height_type == WHSettings.PACK:
             # top_w is a flow widget
-            height = self.top_w.rows((maxcol,), focus=focus)
+            height = self.top_w.rows((maxcol - left - right,), focus=focus)
             top, bottom = calculate_top_bottom_filler(
                 maxrow,
                 self.valign_type,
